@@ -16,6 +16,7 @@ EXPLANATION = ("U1 panic-source cone (MIR call graph) from the eight public cons
 TRUSTED = ['url crate parsing', 'OS connect behaviour', 'rules/triage/C18.tsv']
 UNDECIDED = ['unreachable endpoints (OS)', 'exotic URL strings inside the url crate']
 ASSUMPTIONS = ['code behind the operation issue point / driver loop is driven by server data, not by URL or settings (C11)']
+SHARED = [('C14', ('T.',), 'U5.sync-constructors')]
 TRIAGE = os.path.join(engine.VERIF, 'rules', 'triage', 'C18.tsv')
 AC = 'ldap3::conn::LdapConnAsync::'
 
